@@ -338,7 +338,21 @@ def _floor(I, a):
     x = a[0]
     if isinstance(x, RV):
         k, c = R.floor_int(x)
-        if c is not None: I.add_pc(c)
+        if c is not None:
+            I.add_pc(c)
+            # if the path condition leaves a single value for the floor, use it concretely
+            try:
+                # light solver: path condition and axioms only (no generator definitions / non-zero denominators)
+                ls = z3.Solver(); ls.set('timeout', 3000); ls.add(I.pc); ls.add(R.ST.axioms)
+                if ls.check() == z3.sat:
+                    k0 = ls.model().eval(k, model_completion=True)
+                    if z3.is_int_value(k0):
+                        ls.add(k != k0)
+                        if ls.check() == z3.unsat:
+                            I.add_pc(k == k0); R.ST.floor_const[k.decl().name()] = k0.as_long()
+                            return Fraction(k0.as_long())
+            except z3.Z3Exception: pass
+        elif k.decl().name() in R.ST.floor_const: return Fraction(R.ST.floor_const[k.decl().name()])
         return RV.term(z3.ToReal(k))
     if isinstance(x, float) and (x != x or x in (INF, -INF)): return x
     return I.mkfloat(float(math.floor(x))) if isinstance(x, float) else Fraction(math.floor(x))
@@ -545,16 +559,19 @@ def _bases(I, ti):
     if 'vmi_class_type_info' in vn:
         n = I.load((ti[0], ti[1] + 20), 4, 'i32'); out = []
         for i in range(n):
-            b = I.load((ti[0], ti[1] + 24 + 16 * i), 8, 'ptr'); fl_ = I.load((ti[0], ti[1] + 32 + 16 * i), 8, 'i64')
+            b = I.load((ti[0], ti[1] + 24 + 16 * i), 8, 'ptr'); fl_ = _ival(I.load((ti[0], ti[1] + 32 + 16 * i), 8, 'i64'))
             out.append((b, sext(fl_, 64) >> 8, bool(fl_ & 1)))
         return out
     return []
+def _ival(x):
+    if isinstance(x, tuple): return 0 if x == NULL else (x[1] if x[0] == 'int' else 0)
+    return x
 @ext('__dynamic_cast')
 def _dyncast(I, a):
     sub, src_ti, dst_ti, hint = a
     if sub == NULL: return NULL
     vptr = I.load(sub, 8, 'ptr')
-    off_to_top = sext(I.load((vptr[0], vptr[1] - 16), 8, 'i64'), 64)
+    off_to_top = sext(_ival(I.load((vptr[0], vptr[1] - 16), 8, 'i64')), 64)
     mdt = I.load((vptr[0], vptr[1] - 8), 8, 'ptr')      # most-derived type_info
     whole = (sub[0], sub[1] + off_to_top)
     found = []
@@ -562,7 +579,7 @@ def _dyncast(I, a):
         if ti == dst_ti: found.append(objp)
         for (b, off, virt) in _bases(I, ti):
             if virt:
-                vp = I.load(objp, 8, 'ptr'); voff = sext(I.load((vp[0], vp[1] + off), 8, 'i64'), 64)
+                vp = I.load(objp, 8, 'ptr'); voff = sext(_ival(I.load((vp[0], vp[1] + off), 8, 'i64')), 64)
                 walk(b, (objp[0], objp[1] + voff))
             else: walk(b, (objp[0], objp[1] + off))
     walk(mdt, whole)
@@ -593,6 +610,14 @@ def _sym_double_ad(I, a):
     if I.inputs is not None: return _sym_double(I, a)
     I.syms[nm] = ('real', z3.Real(nm)); I.ext.setdefault('ad_vars', []).append(nm)
     return RV.var(nm, ad=True)
+@ext('verif_ad_seed')
+def _ad_seed(I, a):
+    v = a[0]; nm = _name(I, a[1])
+    if I.inputs is not None: return v
+    r = R.lift(v).notan() if isinstance(v, RV) else RV.const(v)
+    r.tan = {nm: RV({R.E: R.ONE})}
+    I.ext.setdefault('ad_vars', []).append(nm)
+    return r
 @ext('verif_sym_int')
 def _sym_int(I, a):
     nm = _name(I, a[0]); lo = sext(a[1], 64); hi = sext(a[2], 64)
@@ -696,6 +721,12 @@ def _v_isint(I, a):
     if isinstance(v, (Fraction, int)): return 1 if Fraction(v).denominator == 1 else 0
     if isinstance(v, float): return 1 if v == v and v not in (INF, -INF) and v == math.floor(v) else 0
     raise Unsupported('verif_is_integer of %r' % (v,))
+@ext('verif_param')
+def _v_param(I, a):
+    nm = _name(I, a[0]); v = I.ext.get('params', {}).get(nm)
+    if v is None: return a[1]
+    I.choices['param.' + nm] = v
+    return mask(int(v), 64)
 @ext('verif_need_module')
 def _v_need_module(I, a): return None
 @ext('verif_log_accesses')
